@@ -65,6 +65,8 @@ def gen_history(rng, hid, confirm=False):
         kinds[0] = rng.choice(CAT_KINDS)
     if not confirm and rng.random() < 0.6:
         kinds = [k if k not in CAT_KINDS else rng.choice(["int64", "str"]) for k in kinds]
+    if not confirm and rng.random() < 0.3:          # several numeric columns of different types next to each other (a column landing on another's slot shows)
+        kinds = (rng.sample(["int64", "float64", "int32", "bool", "float32", "uint16"], rng.choice([2, 3])) + kinds)[:max(ncols, 2)]
     cols = [{"name": "c%d_%s" % (i, k), "kind": k} for i, k in enumerate(kinds)]
     for c in cols:
         if c["kind"].startswith("dttz"):
@@ -109,7 +111,9 @@ def gen_history(rng, hid, confirm=False):
             k = rng.randint(1, min(3, n))
             rgo = ([0] + sorted(rng.sample(range(1, n), k - 1))) if n > 1 else [0]
         h["batches"].append({"n": n, "cols": bc, "row_group_offsets": rgo, "compression": rng.choice(CODECS),
-                             "pseed": rng.randrange(1 << 30), "iseed": rng.randrange(1 << 30)})
+                             "pseed": rng.randrange(1 << 30), "iseed": rng.randrange(1 << 30),
+                             # an appended frame may list the same columns in another order (schema-compatible; accepted by the library)
+                             "permute": (b > 0 and rng.random() < 0.5)})
     return h
 
 
@@ -138,6 +142,11 @@ def build_batch(h, i):
     if "ps" in h["partition_on"]:
         data["ps"] = pd.Series([prng.choice(["a", "b"]) for _ in range(n)], dtype=object)
     df = pd.DataFrame(data)
+    if b.get("permute") and len(df.columns) > 1:
+        order = list(df.columns)
+        while order == list(df.columns):
+            prng.shuffle(order)
+        df = df[order]
     if h["index"]:
         ix = F.col_values({"name": h["index"]["name"], "kind": h["index"]["kind"], "nulls": "none", "seed": b["iseed"]}, n)
         df.index = pd.Index(ix, name=h["index"]["name"])
@@ -266,7 +275,7 @@ def run_history(arg):
                 expected = a_cells
                 st["cols"] = [c for c, _ in a_cells]
             else:
-                if len(a_df) == 0 and [c for c, _ in a_cells] != [c for c, _ in expected]:
+                if len(a_df) == 0 and sorted(c for c, _ in a_cells) != sorted(c for c, _ in expected):
                     a_cells = [[c, []] for c, _ in expected]       # an empty batch contributes no rows, whatever its alone-read looks like
                 if simple:
                     before = open(target, "rb").read()
@@ -328,7 +337,10 @@ def run_history(arg):
                         st["problems"].append(("renamed-or-removed-existing-data-file", "%s" % moved[:3]))
                     st["new_files"] = sorted(set(snap_a) - set(snap_b))
                     st["nfiles_before"] = len(snap_b)
-                expected = [[c, va + vb] for (c, va), (_, vb) in zip(expected, a_cells)]
+                a_map = dict((c, v) for c, v in a_cells)        # by column NAME: the appended frame may order its columns differently
+                if sorted(a_map) != sorted(c for c, _ in expected):
+                    raise RuntimeError("harness: batch %d read alone has columns %s, first write %s" % (i, sorted(a_map), [c for c, _ in expected]))
+                expected = [[c, va + a_map[c]] for c, va in expected]
             # fresh read in a killable child
             def reader():
                 pf = ParquetFile(target)
@@ -421,7 +433,7 @@ def run(ctx):
     nh, nconf = (300, 20) if ctx.quick() else (3000, 100)
     ctx.rule = ("history = first write + 1..4 appends of frames with the same columns and dtypes (%d kinds incl. nullable, strings, bytes, json, "
                 "timestamps, categoricals; nulls none/some/all/first/last; 0..200 rows), row_group_offsets None/int/list and codec varied per "
-                "step; schemes simple / hive / hive with 1-2 partition columns / drill(flat); written index in 20%%; main stream keeps the category "
+                "step; in half of the appends the frame lists its columns in another order; schemes simple / hive / hive with 1-2 partition columns / drill(flat); written index in 20%%; main stream keeps the category "
                 "list of a categorical column fixed, a small confirmation stream varies it (superset / reordered / disjoint); after EVERY step: "
                 "bytes, listing, trace, fresh read; a case is one step of a history; the first write of a history is the trivial case" % len(KINDS))
     hs = [gen_history(rng, i, False) for i in range(nh)] + [gen_history(rng, nh + i, True) for i in range(nconf)]
